@@ -607,6 +607,14 @@ func (x *Exec) unparkLocked(p *parked) {
 	}
 }
 
+// Tick lets virtual time run until the next observable event, at most one quantum: the same step as the
+// explorer's own "tick" choice, for environments that script the passage of time as an action of their own
+// (an Action whose Do calls Tick), e.g. to make waiting the default choice while other actions stay available
+// as deviations. Only to be called from an Action's Do.
+//
+//go:norace
+func (x *Exec) Tick() { x.tick() }
+
 //go:norace
 func (x *Exec) tick() {
 	select {
